@@ -21,6 +21,11 @@ def make_cases(tier, profile):
     # with a server password: a refused registration (464) must leave no user and no authentication behind
     for rc, l in [(dict(nick='dave', password='badpw'), 'USER dave 0 * :Real'), (dict(nick='bob', password='goodpw'), 'USER dave 0 * :Real'), (dict(name='dave'), 'NICK bob')]:
         cases.append(dict(name=f'{l} [record {sorted(rc.items())}] [server password]', line=l, judges=J + ['registration'], spec=dict(base, password='goodpw'), conn=dict(registered=False, **rc), then=['remove_user']))
+    # a user declared in the configuration registers under a nick that another connection took meanwhile: refused like anybody else
+    for cu, rc in [([('cfguser', 'cfgnick', None, None)], dict(nick='bob')), ([('cfguser', 'cfgnick', 'userpw', None)], dict(nick='bob', password='userpw')),
+                   ([('cfguser', 'cfgnick', None, 'bob!*@*')], dict(nick='bob'))]:
+        cases.append(dict(name=f'USER cfguser 0 * :Real [record {sorted(rc.items())}] [configured user {cu[0][2:]}]', line='USER cfguser 0 * :Real', judges=J + ['registration'],
+                          spec=dict(base, cfg_users=cu), conn=dict(registered=False, **rc), then=['remove_user']))
     # registered connections act as themselves: a registered user's NICK to another user's nick is refused (C15 judges the rename itself)
     for l in ['NICK bob', 'NICK carol']:
         cases.append(dict(name=l + ' [registered alice]', line=l, judges=['no_panic', 'inv', 'nick'], spec=base))
